@@ -1516,4 +1516,151 @@ theorem goSetBytes2E2_refines {β : Type} (P : Prims α) (Q : Comps α β) (C : 
           simp [Codec.absR, Codec.errClass, hs1, hs2, hl]
         all_goals omega
 
+theorem beToNat_take_add_zero (l : List UInt8) (a b : Nat) :
+    beToNat (l.take (a + b)) = 0 ↔ beToNat (l.take a) = 0 ∧ beToNat ((l.drop a).take b) = 0 := by
+  simp only [List.take_add, beToNat_eq_zero, List.mem_append]
+  constructor
+  · intro h; exact ⟨fun y hy => h y (Or.inl hy), fun y hy => h y (Or.inr hy)⟩
+  · rintro ⟨h1, h2⟩ y (hy | hy)
+    · exact h1 y hy
+    · exact h2 y hy
+
+theorem drop_cons_pos (x b0 : UInt8) (tl : List UInt8) (k : Nat) (hk : 1 ≤ k) : (x :: tl).drop k = (b0 :: tl).drop k := by
+  cases k with
+  | zero => omega
+  | succ n => simp
+
+theorem zero4 (x b0 : UInt8) (tl : List UInt8) (fb : Nat) (hfb : 1 ≤ fb) :
+    beToNat (x :: tl.take (4 * fb - 1)) = 0 ↔
+      (beToNat (x :: tl.take (fb - 1)) = 0 ∧ beToNat (((b0 :: tl).drop fb).take fb) = 0) ∧
+      (beToNat (((b0 :: tl).drop (fb * 2)).take fb) = 0 ∧ beToNat (((b0 :: tl).drop (fb * 3)).take fb) = 0) := by
+  have e0 : x :: tl.take (4 * fb - 1) = (x :: tl).take (fb + fb + fb + fb) := by
+    obtain ⟨m, rfl⟩ : ∃ m, fb = m + 1 := ⟨fb - 1, by omega⟩
+    rw [show m + 1 + (m + 1) + (m + 1) + (m + 1) = (4 * (m + 1) - 1) + 1 by omega, List.take_succ_cons]
+  have e1 : x :: tl.take (fb - 1) = (x :: tl).take fb := by
+    obtain ⟨m, rfl⟩ : ∃ m, fb = m + 1 := ⟨fb - 1, by omega⟩
+    simp
+  rw [e0, e1, beToNat_take_add_zero, beToNat_take_add_zero, beToNat_take_add_zero,
+    drop_cons_pos x b0 tl fb hfb, drop_cons_pos x b0 tl (fb + fb) (by omega), drop_cons_pos x b0 tl (fb + fb + fb) (by omega),
+    show fb + fb = fb * 2 by omega, show fb * 2 + fb = fb * 3 by omega]
+  tauto
+
+theorem goSetBytes3E2_refines {β : Type} (P : Prims α) (Q : Comps α β) (C : Codec α) (g : α → α) (emb : Nat → β)
+    (R : Rel2 P Q C g emb) (hL : C.L = .three) (pX pY : α) (buf : List UInt8) (sub : Bool) :
+    C.absR (goSetBytes3E2 C.fb g P Q pX pY buf sub) = some (C.goDecode sub buf) := by
+  have hc := R.c2
+  have hfb := R.fb_pos
+  have hnb : C.nbC = 2 * C.fb := by simp [Codec.nbC, hc]
+  by_cases hlen : buf.length < 2 * C.fb
+  · simp [goSetBytes3E2, Codec.goDecode, Codec.parseFrame, hnb, hlen, Codec.absR, Codec.errClass]
+  · obtain ⟨b0, tl, rfl⟩ : ∃ b0 tl, buf = b0 :: tl := by
+      cases buf with
+      | nil => simp at hlen; omega
+      | cons b t => exact ⟨b, t, rfl⟩
+    have hk : C.L.k ≤ 8 := by rw [hL]; decide
+    have hk2 : 8 - C.L.k = 5 := by rw [hL]; rfl
+    have hpf := parseFrameC C (by omega) hfb hk b0 tl (by rw [hnb]; exact hlen)
+    rw [hk2, show (2 : Nat) ^ 5 = 32 by norm_num, hnb, hc] at hpf
+    have hlt : (tl.take (C.fb - 1)).length = C.fb - 1 := by simp at hlen ⊢; omega
+    have hx : b0.toNat % 32 * 256 ^ (C.fb - 1) + beToNat (tl.take (C.fb - 1))
+        = beToNat ((b0 &&& ~~~(224 : UInt8)) :: tl.take (C.fb - 1)) := by
+      rw [beToNat_cons, byte3_low, hlt]
+    rw [hx] at hpf
+    simp only [readComps, Nat.add_one_sub_one] at hpf
+    have e3 : List.drop C.fb (List.drop (2 * C.fb) (b0 :: tl)) = List.drop (C.fb * 3) (b0 :: tl) := by
+      rw [List.drop_drop]; congr 1; omega
+    rw [e3, show 2 * (2 * C.fb) = 4 * C.fb by omega, show 2 * C.fb = C.fb * 2 by omega] at hpf
+    unfold Codec.goDecode
+    rw [hpf]
+    have h0 : 0 < tl.length + 1 := by omega
+    have h1 : C.fb ≤ tl.length + 1 := by simp at hlen; omega
+    have h1' : C.fb ≤ (b0 :: tl).length := by simpa using h1
+    have h2 : C.fb * 2 ≤ tl.length + 1 := by simp at hlen; omega
+    have h2' : 2 * C.fb ≤ tl.length + 1 := by omega
+    have h2n : ¬ tl.length + 1 < 2 * C.fb := by omega
+    have hS0 : ∀ x : UInt8, Q.sbc (x :: tl.take (C.fb - 1)) =
+        if beToNat (x :: tl.take (C.fb - 1)) < C.p then some (emb (beToNat (x :: tl.take (C.fb - 1)))) else none :=
+      fun x => R.sbc _ (by simp at hlen ⊢; omega)
+    have hXs : ∀ x : UInt8, goSlice (x :: tl.take (C.fb - 1)) 0 C.fb = x :: tl.take (C.fb - 1) := by
+      intro x; rw [goSlice_head _ _ _ hfb, List.take_take, Nat.min_self]
+    have hS1 := R.sbc (((b0 :: tl).drop C.fb).take C.fb) (by simp; omega)
+    rcases byte3_cases b0 with ⟨hm, hd⟩ | ⟨hm, hd⟩ | ⟨hm, hd⟩ | ⟨hm, hd⟩ | ⟨hm, hd⟩ | ⟨hm, hd⟩ | ⟨hm, hd⟩ | ⟨hm, hd⟩
+    · -- uncompressed
+      rw [byte3_unc b0 hm]
+      by_cases hlen2 : tl.length + 1 < 4 * C.fb
+      · simp [goSetBytes3E2, goIsMaskInvalid_0, goIsMaskInvalid_32, goIsMaskInvalid_64, goIsMaskInvalid_96, goIsMaskInvalid_128, goIsMaskInvalid_160, goIsMaskInvalid_192, goIsMaskInvalid_224, hL, hd, hm, Layout.classify, h0, h1, h2, h2', h2n, hlen2, Codec.absR, Codec.errClass]
+      · have h3 : C.fb * 3 ≤ tl.length + 1 := by omega
+        have h4 : C.fb * 4 ≤ tl.length + 1 := by omega
+        have hS2 := R.sbc (((b0 :: tl).drop (C.fb * 2)).take C.fb) (by simp; omega)
+        have hS3 := R.sbc (((b0 :: tl).drop (C.fb * 3)).take C.fb) (by simp; omega)
+        simp only [goSetBytes3E2, goIsMaskInvalid_0, goIsMaskInvalid_32, goIsMaskInvalid_64, goIsMaskInvalid_96, goIsMaskInvalid_128, goIsMaskInvalid_160, goIsMaskInvalid_192, goIsMaskInvalid_224, List.getD_cons_zero, hm, goSlice_second, goSlice_23, goSlice_34, goSlice_head _ _ _ hfb, hS0]
+        generalize ((b0 :: tl).drop C.fb).take C.fb = W1 at hS1 ⊢
+        generalize ((b0 :: tl).drop (C.fb * 2)).take C.fb = W2 at hS2 ⊢
+        generalize ((b0 :: tl).drop (C.fb * 3)).take C.fb = W3 at hS3 ⊢
+        simp [hL, hd, Layout.classify, h0, h1, h2, h2', h2n, h3, h4, hlen2, Codec.phase1, allLt]
+        generalize beToNat (b0 :: List.take (C.fb - 1) tl) = v0
+        by_cases hv0 : v0 < C.p <;> simp [hv0, Codec.absR, Codec.errClass]
+        rw [hS1]
+        generalize beToNat W1 = v1
+        by_cases hv1 : v1 < C.p <;> simp [hv1, Codec.absR, Codec.errClass]
+        rw [hS2]
+        generalize beToNat W2 = v2
+        by_cases hv2 : v2 < C.p <;> simp [hv2, Codec.absR, Codec.errClass]
+        rw [hS3]
+        generalize beToNat W3 = v3
+        by_cases hv3 : v3 < C.p <;> simp [hv3, Codec.absR, Codec.errClass, Codec.phase2Go, R.sub, R.set2]
+        generalize C.ofComps [v0, v1] = x
+        generalize C.ofComps [v2, v3] = y
+        cases hs : C.goInSub x y <;> cases sub <;> simp [Codec.absR, Codec.errClass, hs]
+    · simp [goSetBytes3E2, goIsMaskInvalid_0, goIsMaskInvalid_32, goIsMaskInvalid_64, goIsMaskInvalid_96, goIsMaskInvalid_128, goIsMaskInvalid_160, goIsMaskInvalid_192, goIsMaskInvalid_224, hL, hd, hm, Layout.classify, h0, h1, h2, h2', h2n, Codec.absR, Codec.errClass]
+    · -- 010 uncompressed infinity
+      by_cases hlen2 : tl.length + 1 < 4 * C.fb
+      · simp [goSetBytes3E2, goIsMaskInvalid_0, goIsMaskInvalid_32, goIsMaskInvalid_64, goIsMaskInvalid_96, goIsMaskInvalid_128, goIsMaskInvalid_160, goIsMaskInvalid_192, goIsMaskInvalid_224, hL, hd, hm, Layout.classify, h0, h1, h2, h2', h2n, hlen2, Codec.absR, Codec.errClass]
+      · have h4 : 4 * C.fb ≤ tl.length + 1 := by omega
+        have hz := zero4 (b0 &&& ~~~(224 : UInt8)) b0 tl C.fb hfb
+        simp [goSetBytes3E2, goIsMaskInvalid_0, goIsMaskInvalid_32, goIsMaskInvalid_64, goIsMaskInvalid_96, goIsMaskInvalid_128, goIsMaskInvalid_160, goIsMaskInvalid_192, goIsMaskInvalid_224, hL, hd, hm, Layout.classify, h0, h1, h2, h2', h2n, h4, hlen2, Codec.phase1, allZero,
+          goSlice_tail, goIsZeroed_eq]
+        rw [if_congr hz rfl rfl]
+        split <;> simp [Codec.absR, Codec.errClass, Codec.phase2Go, Codec.mkPt, R.zero]
+    · simp [goSetBytes3E2, goIsMaskInvalid_0, goIsMaskInvalid_32, goIsMaskInvalid_64, goIsMaskInvalid_96, goIsMaskInvalid_128, goIsMaskInvalid_160, goIsMaskInvalid_192, goIsMaskInvalid_224, hL, hd, hm, Layout.classify, h0, h1, h2, h2', h2n, Codec.absR, Codec.errClass]
+    · simp only [goSetBytes3E2, goIsMaskInvalid_0, goIsMaskInvalid_32, goIsMaskInvalid_64, goIsMaskInvalid_96, goIsMaskInvalid_128, goIsMaskInvalid_160, goIsMaskInvalid_192, goIsMaskInvalid_224, hm, bufX_copy _ _ _ hfb h1', List.set_cons_zero, List.getD_cons_zero, hXs, hS0, goSlice_second]
+      generalize ((b0 :: tl).drop C.fb).take C.fb = W1 at hS1 ⊢
+      simp [hL, hd, Layout.classify, h0, h1, h2, h2', h2n, Codec.phase1, allLt]
+      generalize beToNat ((b0 &&& ~~~224) :: List.take (C.fb - 1) tl) = v0
+      by_cases hv0 : v0 < C.p <;> simp [hv0, Codec.absR, Codec.errClass]
+      rw [hS1]
+      generalize beToNat W1 = v1
+      by_cases hv1 : v1 < C.p <;> simp [hv1, Codec.absR, Codec.errClass, Codec.phase2Go, R.sub, R.set2, R.sqrt, R.rhs, R.lex, R.neg]
+      generalize C.ofComps [v0, v1] = x
+      by_cases hleg : Q.legendre (C.rhs x) = -1
+      · simp [hleg, Codec.absR, Codec.errClass]
+      · simp only [hleg, if_false]
+        generalize Q.sqrtU (C.rhs x) = y0
+        cases hs1 : C.goInSub x y0 <;> cases hs2 : C.goInSub x (C.neg y0) <;> cases hl : C.lex y0 <;> cases sub <;>
+          simp [Codec.absR, Codec.errClass, hs1, hs2, hl]
+        all_goals omega
+    · simp only [goSetBytes3E2, goIsMaskInvalid_0, goIsMaskInvalid_32, goIsMaskInvalid_64, goIsMaskInvalid_96, goIsMaskInvalid_128, goIsMaskInvalid_160, goIsMaskInvalid_192, goIsMaskInvalid_224, hm, bufX_copy _ _ _ hfb h1', List.set_cons_zero, List.getD_cons_zero, hXs, hS0, goSlice_second]
+      generalize ((b0 :: tl).drop C.fb).take C.fb = W1 at hS1 ⊢
+      simp [hL, hd, Layout.classify, h0, h1, h2, h2', h2n, Codec.phase1, allLt]
+      generalize beToNat ((b0 &&& ~~~224) :: List.take (C.fb - 1) tl) = v0
+      by_cases hv0 : v0 < C.p <;> simp [hv0, Codec.absR, Codec.errClass]
+      rw [hS1]
+      generalize beToNat W1 = v1
+      by_cases hv1 : v1 < C.p <;> simp [hv1, Codec.absR, Codec.errClass, Codec.phase2Go, R.sub, R.set2, R.sqrt, R.rhs, R.lex, R.neg]
+      generalize C.ofComps [v0, v1] = x
+      by_cases hleg : Q.legendre (C.rhs x) = -1
+      · simp [hleg, Codec.absR, Codec.errClass]
+      · simp only [hleg, if_false]
+        generalize Q.sqrtU (C.rhs x) = y0
+        cases hs1 : C.goInSub x y0 <;> cases hs2 : C.goInSub x (C.neg y0) <;> cases hl : C.lex y0 <;> cases sub <;>
+          simp [Codec.absR, Codec.errClass, hs1, hs2, hl]
+        all_goals omega
+    · -- compressed infinity
+      have hz := uncInf_zero (b0 &&& ~~~(224 : UInt8)) b0 tl C.fb hfb
+      simp [goSetBytes3E2, goIsMaskInvalid_0, goIsMaskInvalid_32, goIsMaskInvalid_64, goIsMaskInvalid_96, goIsMaskInvalid_128, goIsMaskInvalid_160, goIsMaskInvalid_192, goIsMaskInvalid_224, hL, hd, hm, Layout.classify, h0, h1, h2, h2', h2n, Codec.phase1, allZero, goSlice_tail, goIsZeroed_eq]
+      rw [if_congr hz rfl rfl]
+      split <;> simp [Codec.absR, Codec.errClass, Codec.phase2Go, Codec.mkPt, R.zero]
+      omega
+    · simp [goSetBytes3E2, goIsMaskInvalid_0, goIsMaskInvalid_32, goIsMaskInvalid_64, goIsMaskInvalid_96, goIsMaskInvalid_128, goIsMaskInvalid_160, goIsMaskInvalid_192, goIsMaskInvalid_224, hL, hd, hm, Layout.classify, h0, h1, h2, h2', h2n, Codec.absR, Codec.errClass]
+
 end GV.PointCodec
